@@ -250,6 +250,9 @@ impl<'a, F: Float, K: 'a + Permutable<F>> SolverState<'a, F, K> {
 
         let old_alpha_i = self.alpha[i].val();
         let old_alpha_j = self.alpha[j].val();
+        // upper-bound status *before* the step, to detect variables entering or leaving their bound
+        let ui = self.alpha[i].reached_upper();
+        let uj = self.alpha[j].reached_upper();
 
         if self.targets[i] != self.targets[j] {
             let mut quad_coef = self.kernel.self_distance(i)
@@ -342,9 +345,6 @@ impl<'a, F: Float, K: 'a + Permutable<F>> SolverState<'a, F, K> {
         }
 
         // update alpha status and gradient bar
-        let ui = self.alpha[i].reached_upper();
-        let uj = self.alpha[j].reached_upper();
-
         self.alpha[i] = Alpha::from(self.alpha[i].val(), self.bound(i));
         self.alpha[j] = Alpha::from(self.alpha[j].val(), self.bound(j));
 
